@@ -19,13 +19,15 @@ Proof. exact inert. Qed.
 Print Assumptions C02_abort_inert.
 
 Theorem C02_abort_closes : forall j i,
-  i_before i = false -> i_after i = false -> i_dry_run i = false -> i_exit_ok i = false ->
+  i_before i = false -> i_head_known i = true ->
+  i_after i = false -> i_dry_run i = false -> i_exit_ok i = false ->
   (length j + 1 < journal_cap)%nat -> has_active_start (i_kind i) (fst (step j i)) = false.
 Proof. exact abort_closes. Qed.
 Print Assumptions C02_abort_closes.
 
 Theorem C02_complete_rewrites : forall j i,
-  i_before i = false -> i_after i = false -> i_dry_run i = false -> i_exit_ok i = true ->
+  i_before i = false -> i_head_known i = true ->
+  i_after i = false -> i_dry_run i = false -> i_exit_ok i = true ->
   i_head_after i <> i_head i -> i_has_commits i = true ->
   (length j < journal_cap)%nat -> snd (step j i) = Rewrite (i_kind i) (i_head i).
 Proof. exact complete_rewrites. Qed.
@@ -47,6 +49,23 @@ Theorem C02_continue_finishes : forall k o j mids n fin,
   snd (run (EStart k o :: j) (mids ++ [(n, fin)])) = map (fun _ => NoEffect) mids ++ [Rewrite k o].
 Proof. exact continue_finishes. Qed.
 Print Assumptions C02_continue_finishes.
+
+(* an operation whose Start could not be recorded (the pre hook could not resolve HEAD) and for which the
+   journal holds no open Start rewrites nothing and leaves the journal alone — in particular it never
+   reuses the Start of an earlier, finished operation (repaired in /repo: the look-up stops at a
+   Complete/Abort; C02_stale_start_old_lookup shows what the former look-up returned) *)
+Theorem C02_unrecorded_start_inert : forall j i,
+  i_before i = false -> i_head_known i = false -> has_active_start (i_kind i) j = false ->
+  step j i = (j, NoEffect).
+Proof. exact unrecorded_start_inert. Qed.
+Print Assumptions C02_unrecorded_start_inert.
+
+Theorem C02_stale_start_old_lookup :
+  find_newest_start CherryPick stale_journal = Some 3 /\
+  find_start CherryPick stale_journal = None /\
+  step stale_journal stale_inv = (stale_journal, NoEffect).
+Proof. exact stale_start_old_lookup. Qed.
+Print Assumptions C02_stale_start_old_lookup.
 
 (* without the bound the statement is false: the cap cuts the Start out of the journal *)
 Theorem C02_journal_overflow_refuted :
